@@ -391,3 +391,29 @@ Example bitmap_example :
   bm_contains (bm_finalize (bm_adds [] [46; 47; 1; 257])) 257 = Ok true /\
   bm_contains (bm_finalize (bm_adds [] [46; 47; 1; 257])) 2 = Ok false.
 Proof. vm_compute. auto. Qed.
+
+(* ---- RtypeBitmap::from_octets accepts what finalize produces *)
+Lemma bm_check_wire_ok : forall w prev fuel, bm_wire_ok prev w -> (length w < fuel)%nat ->
+  bm_check fuel w = Ok tt.
+Proof.
+  intros w prev fuel H. revert fuel. induction H as [prev|prev w len data rest Hp Hw Hlen Hdl Hb Hlast Hrest IH];
+    intros fuel Hf; (destruct fuel as [|fuel]; [lia|]); [reflexivity|].
+  cbn [bm_check]. cbv [bm_parse_header bm_parse_empty_chunk bm_parse_max_chunk].
+  destruct (N.eqb_spec (len + 2) 2); [lia|]. destruct (N.ltb_spec 34 (len + 2)); [lia|].
+  cbn [length] in *. rewrite app_length in *.
+  destruct (Nat.ltb_spec (S (S (length data + length rest))) (N.to_nat (len + 2))); [lia|].
+  replace (N.to_nat (len + 2)) with (S (S (length data))) by lia. cbn [skipn].
+  rewrite <- (app_nil_l rest) at 1. rewrite skipn_app, skipn_all, Nat.sub_diag. cbn [skipn app].
+  apply IH. lia.
+Qed.
+
+Theorem bitmap_reparses ts : Forall (fun x => x < 65536) ts ->
+  bm_from_octets (bm_finalize (bm_adds [] ts)) = Ok tt.
+Proof.
+  intros Hts. unfold bm_from_octets. eapply bm_check_wire_ok; [apply bitmap_wire_layout; exact Hts|lia].
+Qed.
+
+Example bm_from_octets_examples :
+  bm_from_octets [0; 0] = Err 11 /\ bm_from_octets [0; 33; 1] = Err 11 /\ bm_from_octets [0; 2; 1] = Err 10 /\
+  bm_from_octets [7] = Err 10 /\ bm_from_octets [0; 1; 0; 0; 1; 0] = Ok tt.
+Proof. vm_compute. auto. Qed.
